@@ -104,7 +104,11 @@ func (b *Base128Encoder) Encode(src []byte) []byte {
 		whichByte++
 	}
 
-	dst = append(dst, bufByte)
+	if whichByte != 1 {
+		// Some bits of the last byte are still pending. (After a full group of 7 bytes, or for
+		// empty input, nothing is: an extra character would make the length undecodable.)
+		dst = append(dst, bufByte)
+	}
 	dst = escape128(dst)
 	return dst
 }
